@@ -138,11 +138,14 @@ ADDITIONS = {
     "replayed on the REAL v2 fan-out arbiter (verif-tagged hook) with calls, return values and release cursor compared. Scenario families: "
     "TLC schedules, corner histories, exhaustive choice exploration (incl. a mid-batch rejection under fan-out with a failing dead-letter "
     "write), the outcome x fault matrix (every outcome vector of a 3-record flow x one of 32 boundary faults incl. io.EOF / context.Canceled "
-    "identities, position-write failures, stops with a DLQ write in flight), seeded random."),
+    "identities, position-write failures, stops with a DLQ write in flight), seeded random. SharedSink.tla (the v2 engine with several "
+    "sources on one destination: sharedMu, poison flag, one ack stream) is model-checked with its two refuted deviations and every "
+    "exported run-to-completion behaviour is replayed on the REAL funnel.Worker / Sink / DestinationTask (driver sharedsink)."),
     "C04": (" The V1AckChain histories are replayed on the real v1 ack chain (as C01). Also: chained processors, the holes family (one batch of 5..9 records through two chained processors, every "
     "subset of one or two records taken out by the first), the outcome x fault matrix focused on ack-path faults (position write begin / "
     "set / commit failures, empty positions, ack stream failures) and the V2MultiAck histories replayed on the real fan-out arbiter."),
-    "C05": " Families as C04, incl. the holes family over batches of 5..9 records.",
+    "C05": (" Families as C04, incl. the holes family over batches of 5..9 records; the SharedSink.tla behaviours replayed on the real v2 "
+    "workers (one writer at a time, write order, nothing written after a failed pass)."),
     "C07": (" The V1AckChain histories (tolerated-nack budgets, failing dead-letter writes) are replayed on the real v1 ack chain. The rejection patterns include filtered records (positive outcomes of the window); the outcome x fault matrix is "
     "focused on DLQ faults (DLQ stream ending with io.EOF / context.Canceled / plain errors, stops with a dead-letter write in flight) and "
     "DlqStops is evaluated at the end of every run nobody stopped."),
@@ -150,7 +153,11 @@ ADDITIONS = {
     "C09": (" CondMerge.tla also enumerates condition-evaluation errors and short outputs with exact expectations; the outcome x "
     "fault matrix (an error from any call) is run for NoPanic / NoHang."),
     "C10": (" Recovery attempts are counted within the configured window (RecoveryBounded is windowed); failures spaced further "
-    "apart than back-off + window must each be recovered (TransientRecovers)."),
+    "apart than back-off + window must each be recovered (TransientRecovers). A run into which a plain read / write error was injected "
+    "and which nobody asked to stop must never be stored as stopped by the user (evaluated on every lifecycle trace; deterministic family "
+    "with the scheduling point lifecycle.node-done; Lifecycle.tla with RecordBeforeDone = FALSE refutes NoPhantomStop)."),
+    "C11": (" ParallelNode.tla (the v1 parallel processor node: dispatcher, workers, coordinator, bounded error channel) is model-checked for "
+    "deadlock freedom / Finishes / AllResolved with three refuted variants; the parallel-overflow family repeats the wedging scenario on the real engine."),
     "C12": " A forced stop is also issued during the recovery back-off (no live run) on both engines.",
     "C13": (" Also: a request cancelled while the node is already opening the new processor, followed by further requests - "
     "each caller must get the result of its own request."),
